@@ -101,7 +101,7 @@ class World:
 
 	# ---- writing ---------------------------------------------------------------------------------------------
 	def write_db(self, dirpath, sig_order=None, with_extra=True, id_attr=None, gdb_name='genomes.gdb', gs_name='signatures.gs',
-	             drop_sig_of=None, id_attr_meta='same', sig_dtype=None, interleave_seed=0):
+	             drop_sig_of=None, id_attr_meta='same', sig_dtype=None, interleave_seed=0, second_genomeset=False):
 		"""Write <dir>/<gdb_name> and <dir>/<gs_name>. sig_order: order of genome indices in the signature file."""
 		from sqlalchemy import create_engine
 		from sqlalchemy.orm import Session
@@ -113,7 +113,7 @@ class World:
 		engine = create_engine(f'sqlite:///{gdb}')
 		Base.metadata.create_all(engine)
 		with Session(engine) as s:
-			gs = ReferenceGenomeSet(id=1, **self.gset)
+			gs = ReferenceGenomeSet(id=2 if second_genomeset else 1, **self.gset)
 			s.add(gs)
 			torm = []
 			for t, info in zip(self.taxa, self.tinfo):
@@ -124,10 +124,22 @@ class World:
 				if t.parent is not None:
 					o.parent = torm[t.parent.i]
 			s.add_all(torm)
+			gos = []
 			for j, g in enumerate(self.genomes):
 				go = Genome(id=j + 1, key=g['key'], description=g['description'], ncbi_db=g.get('ncbi_db'), ncbi_id=g.get('ncbi_id'),
 				            genbank_acc=g.get('genbank_acc'), refseq_acc=g.get('refseq_acc'))
 				s.add(AnnotatedGenome(genome=go, genome_set=gs, taxon=torm[g['taxon']], organism=g.get('organism')))
+				if second_genomeset:
+					gos.append(go)
+			if second_genomeset:
+				# another genome set in the same file annotating the *same* genomes with its own taxa (API use only: the CLI wants exactly one set)
+				gs2 = ReferenceGenomeSet(id=1, key='verif/other-set', version='9', name='other', description='second genome set')
+				s.add(gs2)
+				t2 = [Taxon(id=1000 + i, key=f'other/t{i}', name=f'Other {i}', distance_threshold=0.5, genome_set=gs2) for i in range(2)]
+				t2[1].parent = t2[0]
+				s.add_all(t2)
+				for j, go in enumerate(gos):
+					s.add(AnnotatedGenome(genome=go, genome_set=gs2, taxon=t2[j % 2], organism='other'))
 			s.commit()
 		engine.dispose()
 		self.write_signatures(dirpath / gs_name, sig_order=sig_order, with_extra=with_extra, id_attr=id_attr, drop_sig_of=drop_sig_of,
